@@ -1,9 +1,151 @@
-(** C13 -- property theorems only. *)
+(** C13 -- property theorems only.
+    Model: coq/C13/InconIO.v ([write], [read]: t2incon.write / t2incon.read statement by
+    statement over Base/FixedFormat.v), instantiated with the record layouts regenerated
+    from t2incon_format_specification ([the_layouts]).  [wf] / [idem_hyp] are computable
+    booleans (Wf.v); their field-level conjuncts ([readback_ok]: the Fortran reader applied
+    to a formatted field returns the double nearest the value rounded to the printed
+    digits; [idem_ok]: formatting that double gives the same text) are NOT proved here:
+    theorems that assume them are named [_partial] and those conjuncts are evaluated on
+    every generated object by the extracted model and, on the implementation, by the
+    oracle. *)
 From Coq Require Import Ascii String List Bool Arith ZArith NArith.
 From PTBase Require Import Exn PyStr PyNum PyVal Fmt FixedFormat.
-From P Require Import Num Names InconIO Wf.
+From Gen Require Import GenTables GenNames GenPad.
+From P Require Import Num Names InconIO Wf Lines Blocks RoundTrip Idem Bridge Current.
 Import ListNotations.
 
+(** finite obligation over the regenerated table: all seven record kinds present, field
+    types and column agreement of the two block-record flavours as reader and writer
+    assume, 13 decimals for variables and 9 for porosity / permeabilities / times *)
+Theorem layouts_current_ok : exists L, the_layouts = Ok L /\ layouts_ok L = true /\ precisions_ok L = true.
+Proof. exact the_layouts_ok. Qed.
+Print Assumptions layouts_current_ok.
+
+(** one record line (C02 underneath): the fields written with a layout, read with a layout
+    that agrees on those columns and may go on over blanks, come back as the canonical
+    values followed by absent values *)
+Theorem record_line_reads_back : forall wspecs wextra rspecs1 rspecs2 vals rest,
+  forallb2 readback_ok wspecs vals = true -> same_cols wspecs rspecs1 = true ->
+  no_str rspecs2 = true -> forallb is_space rest = true ->
+  exists line, emit (wspecs ++ wextra) vals = Ok (line ++ [newline])%list /\
+    parse_m (rspecs1 ++ rspecs2) (line ++ newline :: rest) = (map2 canon_field wspecs vals ++ repeat MNone (length rspecs2))%list.
+Proof. exact written_line_reads. Qed.
+Print Assumptions record_line_reads_back.
+
+(** read (write i) = canon i: for every well-formed set -- any number of blocks, any
+    number of variables (four per line), optional porosity / permeabilities / nseq-nadd,
+    either flavour, timing kept or reset -- and for ANY layouts of the checked shape *)
+Theorem incon_read_write_any_layouts_partial : forall L nv check reset i,
+  layouts_ok L = true -> wfb L nv check reset i = true ->
+  exists ls, write_L L reset i = Ok ls /\ read_L L nv check ls = Ok (canon_L L reset i).
+Proof. exact read_write_L. Qed.
+Print Assumptions incon_read_write_any_layouts_partial.
+(** ... and with the layouts of the current source *)
+Theorem incon_read_write_partial : forall nv check reset i, wf nv check reset i = true ->
+  exists ls, write reset i = Ok ls /\ read nv check ls = Ok (canon reset i).
+Proof. exact read_write. Qed.
+Print Assumptions incon_read_write_partial.
+
+(** what [canon] keeps: flavour, number and order of blocks, names through unfix-then-fix,
+    nseq / nadd, presence of porosity, permeabilities exactly when the record has them,
+    number of variables, timing integers; timing dropped exactly when reset or absent *)
+Theorem incon_canon_keeps : forall L reset i, layouts_ok L = true ->
+  let j := canon_L L reset i in
+  sim j = sim i /\
+  Forall2 (block_kept (sim i)) (blocks i) (blocks j) /\
+  match timing_ j with
+  | None => reset = true \/ timing_ i = None
+  | Some u => reset = false /\ exists t, timing_ i = Some t /\ kcyc u = kcyc t /\ iter u = iter t /\ nm u = nm t /\
+                is_some (tstart u) = is_some (tstart t) /\ is_some (sumtim u) = is_some (sumtim t)
+  end.
+Proof. exact canon_keeps. Qed.
+Print Assumptions incon_canon_keeps.
+Theorem incon_order_and_names : forall L reset i, layouts_ok L = true ->
+  map bname (blocks (canon_L L reset i)) = map cycle (map bname (blocks i)).
+Proof. exact order_and_names. Qed.
+Print Assumptions incon_order_and_names.
+(** every real of [canon i] is the double nearest the value rounded to the decimals that were printed *)
+Theorem incon_canon_real_is_rounding : forall f ng m e q, ft f = Te -> used_prec f (XReal ng m e) = Some q ->
+  canon_field f (MNum (PDy ng m e)) = MNum (nearest (round_dec q ng m e)).
+Proof. exact canon_real_is_rounding. Qed.
+Print Assumptions incon_canon_real_is_rounding.
+Theorem incon_full_precision_when_it_fits : forall f v s,
+  fmt_raw f (prec f) v = Ok s -> (length s <= width f)%nat -> used_prec f v = Some (prec f).
+Proof. exact used_prec_full. Qed.
+Print Assumptions incon_full_precision_when_it_fits.
+
+(** second write: write (canon i) = write i, byte for byte *)
+Theorem incon_write_idem_any_layouts_partial : forall L reset i,
+  layouts_ok L = true -> forallb (fun b => (length (bname b) =? 5)%nat) (blocks i) = true -> idemb L reset i = true ->
+  write_L L reset (canon_L L reset i) = write_L L reset i.
+Proof. exact write_idem_L. Qed.
+Print Assumptions incon_write_idem_any_layouts_partial.
+Theorem incon_write_idem_partial : forall nv check reset i, wf nv check reset i = true -> idem_hyp reset i = true ->
+  write reset (canon reset i) = write reset i.
+Proof. exact write_idem. Qed.
+Print Assumptions incon_write_idem_partial.
+(** the property statement: write, read back, write again -- the same lines *)
+Theorem incon_second_write_identical_partial : forall nv check reset i, wf nv check reset i = true -> idem_hyp reset i = true ->
+  exists ls j, write reset i = Ok ls /\ read nv check ls = Ok j /\ write reset j = Ok ls.
+Proof. exact second_write_identical. Qed.
+Print Assumptions incon_second_write_identical_partial.
+
+(** the hypotheses are met (TOUGHREACT with permeabilities, 5 variables on 2 lines, a negative
+    3-digit-exponent value, nseq/nadd, absent porosity, a digit-blank-digit name, timing kept;
+    TOUGH2 without blocks; TOUGH2 with timing reset or kept, num_variables not given) *)
+Theorem hypotheses_satisfiable_toughreact : wf (Some 5) true false ex_tr = true /\ idem_hyp false ex_tr = true.
+Proof. exact ex_tr_wf. Qed.
+Print Assumptions hypotheses_satisfiable_toughreact.
+Theorem hypotheses_satisfiable_tough2 :
+  wf None true true ex_empty = true /\ idem_hyp true ex_empty = true /\
+  wf None false true ex_t2 = true /\ idem_hyp true ex_t2 = true /\ wf (Some 1) false false ex_t2 = true.
+Proof. exact ex_t2_wf. Qed.
+Print Assumptions hypotheses_satisfiable_tough2.
+
+(** block names through the (A3,I2) quirk, for every five-character name *)
 Theorem names_cycle_stabilises : forall n, cycle (cycle n) = cycle n.
 Proof. exact cycle_stabilises. Qed.
 Print Assumptions names_cycle_stabilises.
+Theorem names_unfix_fix_printed : forall n, printed_A3I2 n = true -> unfix5 (fix5 n) = n.
+Proof. exact unfix_fix_printed. Qed.
+Print Assumptions names_unfix_fix_printed.
+Theorem names_written_form_is_stable : forall n, unfix5 (fix5 (unfix5 n)) = unfix5 n.
+Proof. exact unfix_fix_unfix. Qed.
+Print Assumptions names_written_form_is_stable.
+(** names PyTOUGH produces (fix of a printed name) and names fix / unfix leave alone survive a cycle unchanged *)
+Theorem names_roundtrip_fixed_printed : forall n, printed_A3I2 n = true -> cycle (fix5 n) = fix5 n.
+Proof. exact cycle_fixed_printed. Qed.
+Print Assumptions names_roundtrip_fixed_printed.
+Theorem names_roundtrip_untouched : forall n, unfix5 n = n -> fix5 n = n -> cycle n = n.
+Proof. exact cycle_nondigit. Qed.
+Print Assumptions names_roundtrip_untouched.
+(** the functions generated from the current mulgrids.py are these models *)
+Theorem gen_fix_blockname_is_model : forall c0 c1 c2 c3 c4,
+  gen_fix_blockname (VStr [c0; c1; c2; c3; c4]) = Ok (VStr (fix5 [c0; c1; c2; c3; c4])).
+Proof. exact gen_fix_blockname_spec. Qed.
+Print Assumptions gen_fix_blockname_is_model.
+Theorem gen_unfix_blockname_is_model : forall c0 c1 c2 c3 c4,
+  gen_unfix_blockname (VStr [c0; c1; c2; c3; c4]) = Ok (VStr (unfix5 [c0; c1; c2; c3; c4])).
+Proof. exact gen_unfix_blockname_spec. Qed.
+Print Assumptions gen_unfix_blockname_is_model.
+Theorem gen_valid_blockname_is_model : forall c0 c1 c2 c3 c4,
+  gen_valid_blockname (VStr [c0; c1; c2; c3; c4]) = bind (valid_name [c0; c1; c2; c3; c4]) (fun b => Ok (VBool b)).
+Proof. exact gen_valid_blockname_spec. Qed.
+Print Assumptions gen_valid_blockname_is_model.
+Theorem gen_padstring_is_model : forall s, (0 <= padstring_default_length)%Z ->
+  gen_padstring (VStr s) (VInt padstring_default_length) = Ok (VStr (padstring s)).
+Proof. exact gen_padstring_spec. Qed.
+Print Assumptions gen_padstring_is_model.
+
+(** the two recorded defects of the current code (known_findings.txt), as theorems about the
+    faithful model: the unguarded statements are false *)
+Theorem flavour_roundtrip_refuted :
+  exists i ls j, write false i = Ok ls /\ read (Some 2) true ls = Ok j /\
+                 sim i = TOUGHREACT /\ sim j = TOUGH2 /\ timing_kcyc i = Some 11100%Z /\ timing_kcyc j = Some 1110%Z.
+Proof. exact Current.flavour_roundtrip_refuted. Qed.
+Print Assumptions flavour_roundtrip_refuted.
+Theorem second_write_refuted :
+  exists i ls j ls2, wf (Some 2) true false i = true /\ write false i = Ok ls /\ read (Some 2) true ls = Ok j /\
+                     write false j = Ok ls2 /\ lines_eqb ls ls2 = false /\ lines_eqb (skipn 1 ls) (skipn 1 ls2) = true.
+Proof. exact Current.second_write_refuted. Qed.
+Print Assumptions second_write_refuted.
